@@ -70,8 +70,34 @@ func (c *Ctx) sparseCase(specs []blobSpec, pads []int, resPad, tailPad int) {
 	blobs := make([]*share.Blob, len(specs))
 	desc := ""
 	multi := false
+	// representation variant: the blobs' data are consecutive WINDOWS of one buffer (each window's spare
+	// capacity is the data of the blobs after it) - a writer that appends to the data it was given corrupts
+	// the later blobs; the specs keep independent copies
+	var flat, flat0 []byte
+	var views [][]byte
+	if len(specs) >= 2 && c.rng.Chance(1, 4) {
+		for _, s := range specs {
+			flat = append(flat, s.data...)
+		}
+		flat = append(flat, bytes.Repeat([]byte{0xa5}, 700)...)
+		flat0 = append([]byte(nil), flat...)
+		off := 0
+		for _, s := range specs {
+			views = append(views, flat[off:off+len(s.data)])
+			off += len(s.data)
+		}
+	}
+	defer func() {
+		if flat != nil && !bytes.Equal(flat, flat0) {
+			c.violate("C08", "", "writing blobs whose data are windows of one buffer modified that buffer (later blobs no longer hold the data they were created with)", "", c.caseOps)
+		}
+	}()
 	for i, s := range specs {
 		b, err := s.blob()
+		if err == nil && views != nil {
+			ns, _ := share.NewNamespaceFromBytes(s.ns)
+			b, err = share.NewBlob(ns, views[i], s.ver, s.signer)
+		}
 		if err != nil {
 			panic(err)
 		}
@@ -267,7 +293,27 @@ func streamRange(c *Ctx) {
 			panic(err)
 		}
 		c.emit("sh set "+hxList(list), "ok "+digList(list))
-		for _, q := range queries {
+		// besides the fixed queries: near misses of the namespaces that ARE present — same id under the other
+		// version, one byte changed at either end of the id
+		qs := append([][]byte{}, queries...)
+		for _, sh := range list {
+			if !c.rng.Chance(1, 3) {
+				continue
+			}
+			v := append([]byte(nil), sh[:29]...)
+			switch c.rng.Intn(4) {
+			case 0:
+				v[0] ^= 0xff // the other namespace version, same id
+			case 1:
+				v[28] ^= 0x01
+			case 2:
+				v[19] ^= 0x80
+			default:
+				v[1+c.rng.Intn(28)] ^= byte(1 << uint(c.rng.Intn(8)))
+			}
+			qs = append(qs, v)
+		}
+		for _, q := range qs {
 			qns, err := share.NewNamespaceFromBytes(q)
 			if err != nil {
 				continue
